@@ -46,6 +46,8 @@ type Config struct {
 	Default   string   `json:"default"`    // API default media type, "" = none
 	Reg       string   `json:"registered"` // "all": every concrete media type of the header alphabet; "sparse": json, text/plain and the keys text/*, */*
 	BodyParam bool     `json:"body_param"` // the operation declares a body parameter
+	API       string   `json:"api,omitempty"`   // how the untyped API value is configured, see apiVariants ("" = hand)
+	Serve     string   `json:"serve,omitempty"` // through which exported constructor / handler the requests are served, see serveVariants ("" = routes)
 }
 
 // Header is one Content-Type header: the spelling sent and its abstract reading.
